@@ -5,7 +5,7 @@ INTS = [0, 1, -1, 2, 3, 7, -7, 10, 2 ** 31, 2 ** 53, 2 ** 53 + 1, 2 ** 63 - 1, -
 FLOATS = [0.0, -0.0, 1.0, 2.0, 2.5, 0.1, 1e-8, 1e15, 2.0 ** 53, 5e-324, -1.5, 3.0, 1e-9, 0.5]
 STRS = ["", "a", "abc", "b<", "1", "2.5", " 3 ", "1_0", "true", "TRUE", "False", "path", "\\path",
         "%d", "%z", "100%", "`x`", "é", "b", "ab", "key", "x y", "-7", "3", "A", "%s", "%(k)s", "%"]
-KEYSTRS = ["a", "b", "c", "abc", "", "1", "key", "é", "path", "A"]
+KEYSTRS = ["a", "b", "c", "abc", "", "1", "key", "é", "path", "A", "a  b"]
 TYPES = [int, float, str, list, dict, bool]
 
 
@@ -222,11 +222,17 @@ def share_equal(x, pool=None):
     return pool.setdefault((type(y).__name__, repr(y)), y)
 
 
-def twin_all(g, v):
+def twin_all(g, v, force=False):
     """A document == to v in which numbers / booleans are replaced by equal values of another type where there is one
-    (1 / True / 1.0): equal documents are still different documents."""
+    (1 / True / 1.0): equal documents are still different documents.  With `force`, the type always changes where it can."""
     if isinstance(v, list):
-        return [twin_all(g, x) for x in v]
+        return [twin_all(g, x, force) for x in v]
     if isinstance(v, dict):
-        return {k: twin_all(g, x) for k, x in v.items()}
-    return g.twin(v)
+        return {k: twin_all(g, x, force) for k, x in v.items()}
+    t = g.twin(v)
+    if force:
+        for _ in range(6):
+            if type(t) is not type(v):
+                break
+            t = g.twin(v)
+    return t
